@@ -498,7 +498,8 @@ class Engine:
             p = self.operand(st, fr, mm.group(2) + "*", mm.group(3))
             env[dst] = self.load(st, p, mm.group(1))
         elif op == "store":
-            mm = re.match(r"store (.*?) (\S+), (.*?)\* (\S+), align", rhs)
+            mm = re.match(r"store (\S+) (getelementptr inbounds \(.*?\)|bitcast \(.*?\)), (.*?)\* (\S+), align", rhs) or \
+                re.match(r"store (.*?) (\S+), (.*?)\* (\S+), align", rhs)
             v = self.operand(st, fr, mm.group(1), mm.group(2))
             p = self.operand(st, fr, mm.group(3) + "*", mm.group(4))
             self.store(st, p, mm.group(1), v)
